@@ -150,10 +150,12 @@ def judgeRun (cmds : List Cmd) (toks : List String) : List String :=
       if call.written == want ∧ call.flushes == wantFlush then []
       else if want.isEmpty ∧ !call.written.isEmpty then ["C06.output_without_response"]
       else if call.written.filter (fun b => b != 59 && b != 44 && b != 13 && b != 10) == want.filter (fun b => b != 59 && b != 44 && b != 13 && b != 10) then
-        -- same payload, separators / terminator differ
-        (if call.written.count 59 != want.count 59 then ["C06.unit_separator"] else []) ++
-        (if call.written.count 44 != want.count 44 then ["C06.item_separator"] else []) ++
-        (if call.written.count 10 != want.count 10 ∨ call.flushes != wantFlush then ["C06.terminator"] else [])
+        -- same payload, separators / terminator differ: in number, or - same numbers - in where they stand
+        -- (a separator inside an item has no complete item on both sides of it)
+        let cl := (if call.written.count 59 != want.count 59 then ["C06.unit_separator"] else []) ++
+          (if call.written.count 44 != want.count 44 then ["C06.item_separator"] else []) ++
+          (if call.written.count 10 != want.count 10 ∨ call.flushes != wantFlush then ["C06.terminator"] else [])
+        if cl.isEmpty then ["C06.separator_misplaced"] else cl
       else ["C06.response_content"]
     c02 ++ c06)
 
